@@ -1,5 +1,6 @@
 #!/usr/bin/env python3
-"""Fail-closed translator for C05: autode/reactions/reaction.py (Reaction.__init__ check order,
+"""Fail-closed translator for C05 (also: values.Energy.__eq__, Energies.append, the Species.energy setter; and C05's own copy of the
+unit table via translate_units): autode/reactions/reaction.py (Reaction.__init__ check order,
 _check_balance, delta, _estimated_barrierless_delta, is_barrierless/ts, switch_reactants_products,
 save/load), autode/reactions/reaction_types.py (classify, the ReactionType table),
 autode/transition_states/transition_states.py (lowest_energy) and autode/utils.py
@@ -464,6 +465,62 @@ def parse_checkpoint(tree):
     return thr
 
 
+def parse_energy_supply(vtree, stree):
+    """values.Energy.__eq__ (tolerance), values.Energies.append (exact shape) and the Species.energy setter
+    (which branch handles an Energy that is not a PotentialEnergy) -> (tol, setter_mode)."""
+    def cls(tree, name):
+        c = [n for n in tree.body if isinstance(n, ast.ClassDef) and n.name == name]
+        expect(len(c) == 1, f"class {name}")
+        return c[0]
+    eq = get_def(cls(vtree, "Energy").body, "__eq__", "Energy")[0]
+    b = body_of(eq)
+    expect(len(b) == 5 and isinstance(b[0], ast.Assign) and src(b[0].targets[0]) == "tol_ha", "Energy.__eq__: shape")
+    tol = float(num_const(b[0].value, "tol_ha"))
+    want = ["if isinstance(other, Value) and (not isinstance(other, self.__class__)):\n    return False",
+            "if isinstance(other, Value):\n    other = other.to('Ha')",
+            "try:\n    other = float(other)\nexcept TypeError:\n    return False",
+            "return abs(other - float(self.to('Ha'))) < tol_ha"]
+    expect([src(x) for x in b[1:]] == want, f"Energy.__eq__: body is {[src(x) for x in b[1:]]}")
+    ap = get_def(cls(vtree, "Energies").body, "append", "Energies")[0]
+    got = [src(x) for x in body_of(ap)]
+    want = ["for item in self:\n    if other == item:\n        self.pop(self.index(item))\n        break",
+            "return super().append(other)"]
+    # the logger call inside the `if` is dropped by hand: compare with it removed
+    fa = body_of(ap)
+    ok = (len(fa) == 2 and isinstance(fa[0], ast.For) and src(fa[0].target) == "item" and src(fa[0].iter) == "self"
+          and not fa[0].orelse and len(fa[0].body) == 1 and isinstance(fa[0].body[0], ast.If)
+          and src(fa[0].body[0].test) == "other == item" and not fa[0].body[0].orelse
+          and [src(x) for x in fa[0].body[0].body if not is_logger_call(x)] == ["self.pop(self.index(item))", "break"]
+          and src(fa[1]) == "return super().append(other)")
+    expect(ok, f"Energies.append: body is {got}")
+    setters = [n for n in cls(stree, "Species").body if isinstance(n, ast.FunctionDef) and n.name == "energy"
+               and any(src(d) == "energy.setter" for d in n.decorator_list)]
+    expect(len(setters) == 1, "Species.energy setter")
+    sb = body_of(setters[0])
+    expect(len(sb) == 1 and isinstance(sb[0], ast.If), "Species.energy setter: shape")
+    branches, node = [], sb[0]
+    while True:
+        branches.append((src(node.test), [src(x) for x in node.body]))
+        if len(node.orelse) == 1 and isinstance(node.orelse[0], ast.If):
+            node = node.orelse[0]
+            continue
+        branches.append(("else", [src(x) for x in node.orelse]))
+        break
+    first = [("value is None", ["pass"]), ("isinstance(value, val.PotentialEnergy)", ["self.energies.append(value)"])]
+    last = ("else", ["self.energies.append(val.PotentialEnergy(float(value)))"])
+    expect(branches[:2] == first and branches[-1] == last and len(branches) in (3, 4), f"Species.energy setter: branches {branches}")
+    if len(branches) == 3:
+        return tol, 0
+    t, body = branches[2]
+    expect(t == "isinstance(value, val.Energy)" and len(body) == 1, f"Species.energy setter: branch {branches[2]}")
+    if body[0] == "self.energies.append(val.PotentialEnergy(float(value), units=value.units))":
+        return tol, 1
+    if body[0].lower() in ("self.energies.append(val.potentialenergy(float(value.to('ha'))))",
+                           "self.energies.append(val.potentialenergy(value.to('ha')))"):
+        return tol, 2
+    raise Untranslatable(f"Species.energy setter: branch body `{body[0]}`")
+
+
 def opt_list(v):
     return "None" if v is None else "(Some " + clist([f"{x}%nat" for x in v]) + ")"
 
@@ -473,7 +530,10 @@ def main():
     tsrc = open(os.path.join(REPO, "autode/reactions/reaction_types.py")).read()
     lsrc = open(os.path.join(REPO, "autode/transition_states/transition_states.py")).read()
     usrc = open(os.path.join(REPO, "autode/utils.py")).read()
+    vsrc = open(os.path.join(REPO, "autode/values.py")).read()
+    ssrc = open(os.path.join(REPO, "autode/species/species.py")).read()
     rtree, ttree, ltree, utree = (ast.parse(s) for s in (rsrc, tsrc, lsrc, usrc))
+    eq_tol, setter_mode = parse_energy_supply(ast.parse(vsrc), ast.parse(ssrc))
     cls = [n for n in rtree.body if isinstance(n, ast.ClassDef) and n.name == "Reaction"]
     expect(len(cls) == 1, "class Reaction")
     cls = cls[0]
@@ -528,6 +588,10 @@ def main():
     L.append("Definition lowest_unit : option string := " + ("None" if lowest_unit is None else f"(Some {cstr(lowest_unit)})") + ".")
     L.append("(* utils.checkpoint_rxn_profile_step: no checkpoint when the step ran for less than this many seconds *)")
     L.append(f"Definition checkpoint_min_seconds : Qc := {q(thr)}.\n")
+    L.append("(* values.Energy.__eq__: tol_ha; Species.energy setter: how an Energy that is not a PotentialEnergy is stored"
+             " (0 = PotentialEnergy(float(value)): unit dropped, 1 = unit kept, 2 = converted to Ha) *)")
+    L.append(f"Definition energy_eq_tol : Qc := {q(eq_tol)}.")
+    L.append(f"Definition setter_mode : nat := {setter_mode}%nat.\n")
     os.makedirs(os.path.dirname(OUT), exist_ok=True)
     txt = "\n".join(L) + "\n"
     old = open(OUT).read() if os.path.exists(OUT) else None
@@ -538,13 +602,26 @@ def main():
         os.replace(_tmp, OUT)  # atomic: a concurrent coqc never sees a partial file
     return {"removed": d["removed"], "ts_synonyms": d["ts_synonyms"], "rules": d["rules"], "combine": d["combine"],
             "unit": d["unit"], "barrierless": b, "balance": [c[:3] for c in checks], "steps": steps,
-            "classify_rules": len(rules), "lowest_unit": lowest_unit, "checkpoint_s": thr, "sha256": sha}
+            "classify_rules": len(rules), "lowest_unit": lowest_unit, "setter_mode": setter_mode, "energy_eq_tol": eq_tol, "checkpoint_s": thr, "sha256": sha}
+
+
+def units_main():
+    """C05's own copy of the unit table + conversion arithmetic (same translator as C06, other output file), so
+    that the C05 slice does not depend on files another property's check rewrites."""
+    sys.path.insert(0, os.path.dirname(os.path.abspath(__file__)))
+    import translate_units as tu
+    tu.OUT = "/verif/coq/gen/C05_Units_Gen.v"
+    try:
+        return tu.main()
+    except tu.Untranslatable as e:
+        raise Untranslatable(f"units: {e}")
 
 
 if __name__ == "__main__":
     try:
+        uinfo = units_main()
         info = main()
-        print("translated:", info)
+        print("translated:", info, "units sha256:", uinfo.get("sha256"))
     except Untranslatable as e:
         print("UNTRANSLATABLE:", e)
         sys.exit(3)
